@@ -301,7 +301,11 @@ def dataclass(  # noqa: C901,D417 # pylint: disable=function-redefined,too-many-
         raise ValueError('The namespace cannot be an empty string.')
 
     cls = dataclasses.dataclass(cls, **kwargs)  # type: ignore[assignment]
+    return _register_dataclass_as_pytree_node(cls, namespace=namespace)
 
+
+def _register_dataclass_as_pytree_node(cls: _TypeT, /, *, namespace: str) -> _TypeT:
+    # Register an already processed dataclass (by `dataclasses.dataclass()`) as a PyTree node type.
     children_fields = {}
     metadata_fields = {}
     for f in dataclasses.fields(cls):
@@ -458,6 +462,7 @@ def make_dataclass(  # type: ignore[no-redef] # noqa: C901,D417
         **dataclass_kwargs,  # type: ignore[arg-type]
         **make_dataclass_kwargs,  # type: ignore[arg-type]
     )
-    dataclass_kwargs.pop('slots', None)  # already defined in `make_dataclass()`
-    dataclass_kwargs.pop('weakref_slot', None)  # already used in `make_dataclass()`
-    return dataclass(cls, **dataclass_kwargs, namespace=namespace)  # type: ignore[call-overload]
+    # NOTE: `dataclasses.make_dataclass()` has already processed the class. Processing it a second
+    # time with `dataclasses.dataclass()` loses the field specifications (`pytree_node`, `init`,
+    # `default_factory`, ...) and fails for frozen classes. Only register it as a PyTree node type.
+    return _register_dataclass_as_pytree_node(cls, namespace=namespace)
